@@ -27,7 +27,7 @@ VARIANT_PINS = {
     (GET, "NAV-RELPOSNED-V0"): ("NAV-RELPOSNED", ("byte", 0, 0)),
     (GET, "NAV-RELPOSNED"): ("NAV-RELPOSNED", ("bytene", 0, [0])),
     (SET, "TIM-VCOCAL-V0"): ("TIM-VCOCAL", ("byte", 0, 0)),
-    (SET, "TIM-VCOCAL"): ("TIM-VCOCAL", ("lenne", [1])),
+    (SET, "TIM-VCOCAL"): ("TIM-VCOCAL", ("bytene", 0, [0])),
     (SET, "CFG-DAT-NUM"): ("CFG-DAT", ("len", 2)),
     (SET, "CFG-DAT"): ("CFG-DAT", ("lenne", [2])),
     (GET, "SEC-SIG-V1"): ("SEC-SIG", ("byte", 0, 1)),
